@@ -28,6 +28,12 @@ OPEN = {"(": ")", "[": "]", "{": "}"}
 CLOSE = {")", "]", "}"}
 BR = "()[]{}"
 INJECT = ["@", "`", "\\", "/* c */", "// c\n", "'", '"', "\n#include <x>\n", "\n#define A 1\n", "\n#if 0\n", "\n#error x\n"]
+# directives other than #line / #pragma whose names merely resemble them; injected
+# at declaration/statement boundaries only (keeps the quick tier cheap)
+INJECT_DIRECTIVES = [
+    "\n#pragmas x\n", "\n#pragma_once\n", "\n#pragma7 pack(1)\n", "\n# pragmatic (( @\n", "\n#Pragma once\n", "\n#lines 3\n", "\n#line_ 3\n",
+    "\n#LINE 3\n", "\n#linex\n", "\n#endif\n", "\n#undef A\n", "\n#ifdef A\n", "\n#elif 1\n", "\n#warning w\n", "\n# define B\n", "\n#\tinclude \"x.h\"\n", "\n#pragmaonce\n",
+]
 
 
 def first_imbalance(toks):
@@ -96,6 +102,10 @@ def mutate_program(strs, st, label, all_boundaries):
                 must_reject(m, what, (label, m), st)
                 if i >= 10:
                     st.nontrivial += 1
+        if boundary:
+            for inj in INJECT_DIRECTIVES:
+                m = strs[:i] + [inj] + strs[i:]
+                must_reject(m, "inject %r" % inj.strip(), (label, m), st)
         if isbr or boundary or all_boundaries:
             for inj in INJECT:
                 m = strs[:i] + [inj] + strs[i:]
